@@ -249,7 +249,8 @@ template <typename T, typename C> struct observed_mpi_builtin
 static int run_id = 0;
 
 template <typename K, typename T>
-static void c12_run(rng& g, int shp, int variant, int world, bool builtin, double target, int stop_at, bool resumed, int mode)
+static void c12_run(rng& g, int shp, int variant, int world, bool builtin, double target, int stop_at, bool resumed, int mode,
+    std::size_t pre_calls = 20)
 {
     typedef typename K::chk C;
     std::size_t n = 3 + g.below(3);
@@ -260,7 +261,7 @@ static void c12_run(rng& g, int shp, int variant, int world, bool builtin, doubl
     if (resumed)
     {
         // a checkpoint that already holds two results (produced silently, not part of the trace)
-        start = K::run(s_ordinary, variant, start, std::vector<std::size_t>{20, 20}, hep::callback<C>(hep::callback_mode::silent));
+        start = K::run(s_ordinary, variant, start, std::vector<std::size_t>{pre_calls, pre_calls}, hep::callback<C>(hep::callback_mode::silent));
         n0 = start.results().size();
     }
     ev("Run").i("run", run_id++).s("kind", K::name()).s("T", type_name<T>::get()).s("shape", shape_name(shp)).a("plan", plan).i("n0", (long long) n0)
@@ -324,6 +325,10 @@ template <typename T> static void c12_family(rng& g, bool thorough)
         c12_run<plain_k<T>, T>(g, s_gap, 0, world == 1 ? 0 : world, true, 0.04, 0, false, (int) g.below(4));
         if (world != 1) c12_run<mc_k<T>, T>(g, s_gap, 1, world, true, 0.04, 0, false, 0);
     }
+    // resumed from a checkpoint whose two results (200 calls each, relative error about 0.05 each) count: together with the first new
+    // iteration the combination is at about 0.03 - a target of 0.04 is reached at the first callback after the resumption
+    c12_run<plain_k<T>, T>(g, s_ordinary, 0, 0, true, 0.04, 0, true, (int) g.below(4), 200);
+    c12_run<vegas_k<T>, T>(g, s_ordinary, 0, 2, true, 0.04, 0, true, 0, 200);
     // built-in callback under MPI (non-root ranks are silenced but must take the same decisions)
     for (int shp = 0; shp != s_count; ++shp)
     {
